@@ -494,6 +494,22 @@ Proof.
            (sum_upd (CapOf T)) (sum_add_ring (CapOf T)) T Hq (pas_cap T) s attribute m Hd E).
 Qed.
 
+Theorem decode_graph_ok_c T s compat attribute m : (exists c, assoc (lit "?") T = Some c) -> frags_ok s compat ->
+  decode_graph T s compat attribute = Ok m -> GraphOK T m.
+Proof.
+  intros Hq Hd E.
+  exact (decode_graph_wf_c (CapOf T) SumInv sum_empty (sum_add_atom (CapOf T)) (sum_add_bond (CapOf T))
+           (sum_upd (CapOf T)) (sum_add_ring (CapOf T)) T Hq (pas_cap T) s compat attribute m Hd E).
+Qed.
+
+Theorem decoder_total_ok_c T s compat attribute : (exists c, assoc (lit "?") T = Some c) -> frags_ok s compat ->
+  (exists out, decoder T s compat attribute = Ok out) \/ decoder T s compat attribute = Err DecoderError.
+Proof.
+  intros Hq Hd.
+  exact (decoder_total_c (CapOf T) SumInv sum_empty (sum_add_atom (CapOf T)) (sum_add_bond (CapOf T))
+           (sum_upd (CapOf T)) (sum_add_ring (CapOf T)) T Hq (pas_cap T) s compat attribute Hd).
+Qed.
+
 Theorem decoder_total_ok T s attribute : (exists c, assoc (lit "?") T = Some c) -> digits_ok s ->
   (exists out, decoder T s false attribute = Ok out) \/ decoder T s false attribute = Err DecoderError.
 Proof.
